@@ -25,6 +25,7 @@ structure IState where
   backticks : List (Nat × Nat) := []     -- `state.backticks`: run length ↦ last position seen (a dict: the first entry for a key counts)
   backticksScanned : Bool := false       -- `state.backticksScanned`
   delimiters : List Delim := []          -- `state.delimiters` (one list: no rule of the modelled chains opens a nested scope)
+  linkLevel : Int := 0                   -- `state.linkLevel` (written by `html_inline`; read by `linkify` only)
 deriving Repr
 
 def IState.init (src : List Char) : IState :=
